@@ -7,6 +7,7 @@ from . import _rows
 
 PROP = "C05"
 LEVEL = "exploration"
+ANCHORS = ["PMux.", "_child_curr", "_find_domain", "System.solve", "_get_parents"]  # functions whose reached lines are reported in the evidence
 RULE = (
     "cases = mux layouts with 1-4 inputs; for every layout ALL 2^k live/dead patterns are enumerated, a dead "
     "input being realised as a 0 V source, a phase-inactive source or a phase-inactive converter/regulator/switch "
